@@ -176,29 +176,16 @@ Definition decomp_pos (a : f64) : option (positive * Z) :=
 Lemma pow10_pos dp : (0 < 10 ^ Z.of_nat dp)%Z.
 Proof. apply Z.pow_pos_nonneg; lia. Qed.
 
-(* the float nearest to N / 10^dp prints, at dp decimals, as N again *)
-Theorem printed_back N dp :
-  (0 < N < 2 ^ 51)%Z -> (dp <= 22)%nat ->
-  exists m e, decomp_pos (f_of_ratio N (10 ^ Z.of_nat dp)) = Some (m, e) /\ scaled_q m e dp = N.
+(* a float whose value times 10^dp is strictly within 1/2 of the positive integer N prints as N *)
+Lemma near_scaled a N dp :
+  (0 < N)%Z -> Rabs (R_of a * IZR (10 ^ Z.of_nat dp) - IZR N) < / 2 ->
+  exists m e, decomp_pos a = Some (m, e) /\ scaled_q m e dp = N.
 Proof.
-  intros [HN HN2] Hdp. set (q := (10 ^ Z.of_nat dp)%Z).
-  assert (Hq : (0 < q <= 10 ^ 22)%Z) by (unfold q; split; [apply pow10_pos|apply Z.pow_le_mono_r; lia]).
-  pose proof (f_of_ratio_close N q ltac:(lia) Hq) as Hc.
-  set (a := f_of_ratio N q) in *. set (Y := R_of a) in *.
+  intros HN Hs. set (q := (10 ^ Z.of_nat dp)%Z) in *.
+  assert (Hq : (0 < q)%Z) by (unfold q; apply pow10_pos).
+  set (Y := R_of a) in *.
   assert (Hq0 : 0 < IZR q) by (apply IZR_lt; lia).
   assert (HN0 : 0 < IZR N) by (apply IZR_lt; lia).
-  assert (HN51 : IZR N < bpow radix2 51) by (change (bpow radix2 51) with (IZR (2 ^ 51)); apply IZR_lt; lia).
-  (* scaled: |Y q - N| < 1/2 *)
-  assert (Hs : Rabs (Y * IZR q - IZR N) < / 2).
-  { replace (Y * IZR q - IZR N) with ((Y - IZR N / IZR q) * IZR q) by (field; lra).
-    rewrite Rabs_mult, (Rabs_pos_eq (IZR q)) by lra.
-    apply Rle_lt_trans with ((bpow radix2 (-53) + bpow radix2 (-64)) * (IZR N / IZR q) * IZR q).
-    - apply Rmult_le_compat_r; [lra|exact Hc].
-    - replace ((bpow radix2 (-53) + bpow radix2 (-64)) * (IZR N / IZR q) * IZR q) with ((bpow radix2 (-53) + bpow radix2 (-64)) * IZR N) by (field; lra).
-      apply Rlt_le_trans with ((bpow radix2 (-53) + bpow radix2 (-64)) * bpow radix2 51).
-      + apply Rmult_lt_compat_l; [pose proof (bpow_gt_0 radix2 (-53)); pose proof (bpow_gt_0 radix2 (-64)); lra|exact HN51].
-      + rewrite Rmult_plus_distr_r, <- !bpow_plus. change (bpow radix2 (-53 + 51)) with (/ 4). 
-        assert (bpow radix2 (-64 + 51) <= / 4) by (change (/ 4) with (bpow radix2 (-2)); apply bpow_le; lia). lra. }
   assert (HY : 0 < Y).
   { apply Rabs_def2 in Hs. assert (/ 2 < IZR N) by (apply Rlt_le_trans with 1; [lra|apply IZR_le; lia]).
     assert (0 < Y * IZR q) by lra. destruct (Rle_or_lt Y 0) as [Hle|Hlt]; [|exact Hlt]. nra. }
@@ -209,8 +196,7 @@ Proof.
   exists m, e. split; [reflexivity|]. unfold scaled_q. fold q.
   unfold F2R in Hs. cbn [Fnum Fexp cond_Zopp] in Hs.
   destruct (Z.leb_spec 0 e) as [He0|He0].
-  - (* integer value *)
-    rewrite <- (IZR_Zpower radix2 e He0) in Hs. change (radix_val radix2) with 2%Z in Hs.
+  - rewrite <- (IZR_Zpower radix2 e He0) in Hs. change (radix_val radix2) with 2%Z in Hs.
     rewrite <- !mult_IZR, <- minus_IZR in Hs. rewrite <- abs_IZR in Hs.
     assert (Hz : (Z.abs (Z.pos m * 2 ^ e * q - N) < 1)%Z).
     { apply lt_IZR. eapply Rlt_trans; [exact Hs|]. lra. }
@@ -224,6 +210,29 @@ Proof.
     replace (2 * (IZR (Z.pos m) * IZR q) - 2 * IZR N * IZR den) with (2 * IZR den * (IZR (Z.pos m) * / IZR den * IZR q - IZR N)) by (field; lra).
     rewrite Rabs_mult, (Rabs_pos_eq (2 * IZR den)) by lra.
     apply Rlt_le_trans with (2 * IZR den * / 2); [apply Rmult_lt_compat_l; [lra|exact Hs]|right; field].
+Qed.
+
+(* the float nearest to N / 10^dp prints, at dp decimals, as N again *)
+Theorem printed_back N dp :
+  (0 < N < 2 ^ 51)%Z -> (dp <= 22)%nat ->
+  exists m e, decomp_pos (f_of_ratio N (10 ^ Z.of_nat dp)) = Some (m, e) /\ scaled_q m e dp = N.
+Proof.
+  intros [HN HN2] Hdp. apply near_scaled; [exact HN|]. set (q := (10 ^ Z.of_nat dp)%Z).
+  assert (Hq : (0 < q <= 10 ^ 22)%Z) by (unfold q; split; [apply pow10_pos|apply Z.pow_le_mono_r; lia]).
+  pose proof (f_of_ratio_close N q ltac:(lia) Hq) as Hc.
+  set (Y := R_of (f_of_ratio N q)) in *.
+  assert (Hq0 : 0 < IZR q) by (apply IZR_lt; lia).
+  assert (HN0 : 0 < IZR N) by (apply IZR_lt; lia).
+  assert (HN51 : IZR N < bpow radix2 51) by (change (bpow radix2 51) with (IZR (2 ^ 51)); apply IZR_lt; lia).
+  replace (Y * IZR q - IZR N) with ((Y - IZR N / IZR q) * IZR q) by (field; lra).
+  rewrite Rabs_mult, (Rabs_pos_eq (IZR q)) by lra.
+  apply Rle_lt_trans with ((bpow radix2 (-53) + bpow radix2 (-64)) * (IZR N / IZR q) * IZR q).
+  - apply Rmult_le_compat_r; [lra|exact Hc].
+  - replace ((bpow radix2 (-53) + bpow radix2 (-64)) * (IZR N / IZR q) * IZR q) with ((bpow radix2 (-53) + bpow radix2 (-64)) * IZR N) by (field; lra).
+    apply Rlt_le_trans with ((bpow radix2 (-53) + bpow radix2 (-64)) * bpow radix2 51).
+    + apply Rmult_lt_compat_l; [pose proof (bpow_gt_0 radix2 (-53)); pose proof (bpow_gt_0 radix2 (-64)); lra|exact HN51].
+    + rewrite Rmult_plus_distr_r, <- !bpow_plus. change (bpow radix2 (-53 + 51)) with (/ 4).
+      assert (bpow radix2 (-64 + 51) <= / 4) by (change (/ 4) with (bpow radix2 (-2)); apply bpow_le; lia). lra.
 Qed.
 
 (* ---------------------------------------------------------------- the text layer *)
@@ -417,13 +426,30 @@ From TT Require Import Xml.Print Laptimer.Value Laptimer.Codec.
 
 (* x prints, at dp decimals, as N units of the last decimal with |N| < 2^51 (or as zero) *)
 Definition printable (dp : nat) (x : f64) : Prop :=
+  (exists s, of_bits x = Binary.B754_zero 53 1024 s) \/
   exists s m e H, of_bits x = Binary.B754_finite 53 1024 s m e H /\ (0 <= scaled_q m e dp < 2 ^ 51)%Z.
+
+(* plus or minus zero *)
+Lemma zero_reprint dp x s : of_bits x = Binary.B754_zero 53 1024 s -> (dp <= 22)%nat ->
+  exists x', parse_float (fmt_fixed dp x) = Ok x' /\ fmt_fixed dp x' = fmt_fixed dp x.
+Proof.
+  intros E Hdp.
+  assert (Ht : fmt_fixed dp x = dec_text s 0 dp) by (rewrite dec_text_zero; unfold fmt_fixed; rewrite E; reflexivity).
+  rewrite Ht.
+  assert (Hz : f_of_ratio 0 (10 ^ Z.of_nat dp) = fzero).
+  { unfold f_of_ratio. pose proof (pow10_pos dp). destruct (Z.leb_spec (10 ^ Z.of_nat dp) 0); [lia|]. reflexivity. }
+  rewrite (parse_dec_text s 0 dp ltac:(split; [lia|reflexivity]) Hdp) by (rewrite Hz; reflexivity). rewrite Hz.
+  rewrite dec_text_zero. destruct s.
+  - exists (fneg fzero). split; [reflexivity|]. reflexivity.
+  - exists fzero. split; [reflexivity|]. reflexivity.
+Qed.
 Definition stable (dp : nat) (x : f64) : Prop :=
   exists x', pf (fmt_fixed dp x) = Ok x' /\ fmt_fixed dp x' = fmt_fixed dp x.
 
 Lemma printable_stable dp x : (dp <= 22)%nat -> printable dp x -> stable dp x.
 Proof.
-  intros Hdp [s [m [e [H [E HN]]]]]. unfold stable, pf.
+  intros Hdp [[s E]|[s [m [e [H [E HN]]]]]]; unfold stable, pf.
+  { exact (zero_reprint dp x s E Hdp). }
   destruct (Z.eq_dec (scaled_q m e dp) 0) as [Hz|Hnz].
   - exact (fixed_reprint_zero dp x s m e H E Hz Hdp).
   - exact (fixed_reprint dp x s m e H E ltac:(lia) Hdp).
@@ -455,7 +481,7 @@ Lemma printable_of_decomp dp x s m e :
   decomp x = Some (s, m, e) -> (0 <= scaled_q m e dp < 2 ^ 51)%Z -> printable dp x.
 Proof.
   unfold decomp, printable. destruct (of_bits x) as [?|?|? ? ?|s' m' e' H']; try discriminate.
-  intros E Hq. injection E as -> -> ->. exists s, m, e, H'. split; [reflexivity|exact Hq].
+  intros E Hq. injection E as -> -> ->. right. exists s, m, e, H'. split; [reflexivity|exact Hq].
 Qed.
 
 (* the hypothesis is met by ordinary values: 50.857952 degrees at 8 decimals *)
